@@ -17,7 +17,8 @@ C_SRCS := sim/simtsan.c
 else
 C_SRCS :=
 endif
-OBJS := $(patsubst sim/%.cpp,$(OD)/sim_%.o,$(SIM_SRCS)) $(patsubst props/%.cpp,$(OD)/prop_%.o,$(PROP_SRCS)) $(patsubst sim/%.c,$(OD)/c_%.o,$(C_SRCS))
+PROP_C_SRCS := $(wildcard props/*.c)
+OBJS := $(patsubst props/%.c,$(OD)/cprop_%.o,$(PROP_C_SRCS)) $(patsubst sim/%.cpp,$(OD)/sim_%.o,$(SIM_SRCS)) $(patsubst props/%.cpp,$(OD)/prop_%.o,$(PROP_SRCS)) $(patsubst sim/%.c,$(OD)/c_%.o,$(C_SRCS))
 HDRS := $(wildcard sim/*.h) $(wildcard props/*.h)
 
 harness: $(OD) $(OBJS)
@@ -27,6 +28,9 @@ $(OD)/sim_%.o: sim/%.cpp $(HDRS) $(CFGDIR)/json.h
 	$(CXX) $(CXXFLAGS) -c $< -o $@
 $(OD)/prop_%.o: props/%.cpp $(HDRS) $(CFGDIR)/json.h
 	$(CXX) $(CXXFLAGS) -c $< -o $@
+# harness parts that must be strict ISO C (they select the ANSI variants of json-c's public macros)
+$(OD)/cprop_%.o: props/%.c $(HDRS) $(CFGDIR)/json.h
+	$(CC) -std=c99 $(HFLAGS) -Wall -I$(CFGDIR) -I$(REPO) -c $< -o $@
 $(OD)/c_%.o: sim/%.c $(HDRS)
 	$(CC) -O1 -g -fno-omit-frame-pointer -Wall -c $< -o $@
 .PHONY: harness
